@@ -131,6 +131,18 @@ def _reg():
     add("trim", 1, lambda r, v: zonal.trim(r[0], values=[0]), view=True, numpy_only=True, keeps=True)
     add("crop", 2, lambda r, v: zonal.crop(r[0], r[1], zones_ids=[1, 2, 3, 4, 5]), view=True, numpy_only=True, view_of=1, keeps_crop=True)
     add("zonal_stats", 2, lambda r, v: zonal.stats(r[0], r[1], stats_funcs=["mean", "max", "count"] if v % 2 else ["sum", "min"]), table=True, same_backend=True)
+    def _ct3d(r, v):
+        # categorical (3-D) crosstab: the cube is built here from two pool rasters, so its before/after comparison is made here as well
+        cube = xr.DataArray(np.stack([np.asarray(r[1].data), np.asarray(r[2].data)]) if v % 2 == 0 else
+                            np.ascontiguousarray(np.stack([np.asarray(r[1].data), np.asarray(r[2].data)], axis=-1)),
+                            dims=(["cat"] + list(r[1].dims)) if v % 2 == 0 else (list(r[1].dims) + ["cat"]), coords={"cat": [10, 20]})
+        before = cube.copy(deep=True)
+        out = zonal.crosstab(r[0], cube, layer=0 if v % 2 == 0 else -1, agg=["count", "sum", "max"][v % 3])
+        if not np.array_equal(np.asarray(cube.data), np.asarray(before.data), equal_nan=True) or cube.dims != before.dims:
+            raise Violation("input_modified[zonal_crosstab_3d:values]", "the 3-D values cube changed during crosstab (layer axis %s, dtype %s)" % (
+                "first" if v % 2 == 0 else "last", cube.dtype))
+        return out
+    add("zonal_crosstab_3d", 3, _ct3d, table=True, numpy_only=True)
     add("zonal_stats_da", 2, lambda r, v: zonal.stats(r[0], r[1], return_type="xarray.DataArray"), own_shape=True, numpy_only=True)
     add("zonal_crosstab", 2, lambda r, v: zonal.crosstab(r[0], r[1]), table=True, same_backend=True)
     add("zonal_apply", 2, lambda r, v: zonal.apply(r[0], r[1], lambda x: x % 2 + 1, nodata=0), mutates_values=1, numpy_only=True, int_first=True)
@@ -548,6 +560,7 @@ def run_machine(ctx, max_examples, step_count, fast_only=False, dtypes=None):
 
 
 MATRIX = [("float64", "C", "numpy"), ("float32", "F", "numpy"), ("int32", "view", "numpy"), ("float64", "ro", "numpy"), ("float64", "C", "dask"),
+          ("float32", "C", "dask"),   # a cast to the working dtype is a no-op here: the kernel sees the chunks held by the caller's graph
           ("uint8", "F", "numpy"), ("int64", "ro", "numpy"), ("float32", "view", "dask")]
 BASE = [[1, 2, 3, 1, 0], [2, 0, 1, 3, 2], [3, 1, 2, 0, 1], [1, 3, 0, 2, 3], [2, 1, 3, 1, 2]]
 
@@ -577,7 +590,7 @@ def matrix_cases(names, combos):
 def shards(tier):
     out = []
     names = fn_names()
-    combos = MATRIX[:5] if tier == "quick" else MATRIX
+    combos = MATRIX[:6] if tier == "quick" else MATRIX
     ng = 6
     for g in range(ng):
         mine = names[g::ng]
@@ -595,6 +608,6 @@ def shards(tier):
 
 LEVEL_TEXT = ("Stateful model-based search (Hypothesis RuleBasedStateMachine): histories of public calls over a growing pool of rasters (outputs re-enter), with a "
               "deep snapshot / shares_memory / write-probe / identity invariant after every step, plus a deterministic function x dtype x layout x backend matrix.")
-LEVEL_NOTE = ("Histories are bounded and sampled; the matrix covers every registry function on 5 (quick) / 8 (thorough) input classes; identity is asserted against "
+LEVEL_NOTE = ("Histories are bounded and sampled; the matrix covers every registry function on 6 (quick) / 9 (thorough) input classes plus two classes with a +-inf cell; identity is asserted against "
               "the first raster argument; documented exceptions are encoded per registry entry.")
 TECHNIQUE = "stateful property-based testing (Hypothesis rule-based state machine) with snapshot/aliasing/write-probe invariants"
